@@ -134,30 +134,26 @@ def run(repo: Repo, rep: Report) -> None:
     rep.rule("C02.e-remove-scoped-to-context",
              "Memory.remove skips the contexts other than the requested one before un-linking, and deletes the index and "
              "context-map entries of a triple only under the test that no context remains for it", floor=3)
+    # stated on roles and reachability conditions (vlib/h_c02.remove_scoping), not on the spelling of the tests: inside the loop over
+    # self.triples(...), (1) what un-links the triple from ONE of its enumerated contexts is reached only where `context is None` or that
+    # context equals the requested key, (2) a deletion keyed by the triple's components only where the triple's contexts are empty (one
+    # keyed by the triple itself: there, or where what remains equals the default entry), (3) what un-links it from the key None only
+    # where `None in E and (context is None or len(E) == 1)` - however the condition is spelt (and/or, nested ifs, guard clauses)
+    from vlib import h_c02 as H
+
     f = mem.func("Memory.remove")
-    # the per-context loop
-    loops = [n for n in own_nodes(f) if isinstance(n, ast.For) and "get_context_for_triple" in norm(n.iter)]
-    ok = False
-    if loops:
-        lp = loops[0]
-        var = norm(lp.target)
-        first = lp.body[0] if lp.body else None
-        if isinstance(first, ast.If) and isinstance(first.body[-1], ast.Continue):
-            t = norm(first.test)
-            ok = "context is not None" in t and ("!= " + var in t or var + " !=" in t)
-    rep.ob("C02.e-remove-scoped-to-context", mem, "Memory.remove", "skip contexts other than the requested one", ok,
-           "a removal with a graph given leaves the triple's other graphs alone" if ok else "the per-context loop no longer skips contexts different from the requested one: removing from one graph removes from others", node=f)
-    g = CFG(f)
-    guards = [n for n in own_nodes(f) if isinstance(n, ast.If) and "get_context_for_triple" in norm(n.test) and "== 0" in norm(n.test)]
-    dels = [n for n in own_nodes(f) if isinstance(n, ast.Delete) and any("__spo" in norm(t) or "__pos" in norm(t) or "__osp" in norm(t) or "tripleContexts" in norm(t) for t in n.targets)]
-    ok = bool(guards) and bool(dels) and all(any(d is x for s in guards[0].body for x in ast.walk(s)) for d in dels)
-    rep.ob("C02.e-remove-scoped-to-context", mem, "Memory.remove", "index entries deleted only when no context remains", ok,
-           "union entry dropped only on the path where the triple has no context left" if ok else "index/context-map entries are deleted outside the `no context remains` test: a triple shared by several graphs disappears from all of them", node=f)
-    # default-context un-link only when None is asserted and (no graph given or only None left)
-    un = [n for n in own_nodes(f) if isinstance(n, ast.If) and "None in" in norm(n.test)]
-    ok = bool(un) and "context is None" in norm(un[0].test) and "len(" in norm(un[0].test)
-    rep.ob("C02.e-remove-scoped-to-context", mem, "Memory.remove", "default-context entry removed only when unscoped or last", ok,
-           "" if ok else "the union/default entry is un-linked under a different condition than `None in ctxs and (context is None or len(ctxs) == 1)`", node=f)
+    rep.analysed("%s:Memory.remove" % mem.rel)
+    texts = {
+        "scoped": ("skip contexts other than the requested one", "a removal with a graph given leaves the triple's other graphs alone",
+                   "the per-context loop no longer skips contexts different from the requested one: removing from one graph removes from others"),
+        "indexes": ("index entries deleted only when no context remains", "union entry dropped only on the path where the triple has no context left",
+                    "index/context-map entries are deleted outside the `no context remains` test: a triple shared by several graphs disappears from all of them"),
+        "union": ("default-context entry removed only when unscoped or last", "",
+                  "the union/default entry is un-linked under a different condition than `None in ctxs and (context is None or len(ctxs) == 1)`"),
+    }
+    for kind, ok, why, node in H.remove_scoping(mem, f, mem.cls("Memory")):
+        cons, good, bad = texts[kind]
+        rep.ob("C02.e-remove-scoped-to-context", mem, "Memory.remove", cons, ok, good if ok else "%s [%s]" % (bad, why), node=f)
 
 
 def write_path_rules(repo: Repo, rep: Report) -> None:
@@ -208,37 +204,38 @@ def write_path_rules(repo: Repo, rep: Report) -> None:
 
 def context_filter_rule(repo: Repo, rep: Report) -> None:
     """(f) every yield of the context-aware store's triples() is guarded by the per-triple context filter"""
-    from vlib import roles
+    from vlib import h_c02 as H
 
     mem = repo.mod("rdflib.plugins.stores.memory")
     rep.rule("C02.f-context-filter-on-every-yield",
              "for each of the 8 pattern shapes, every triple yielded by Memory.triples has passed the per-triple context "
              "filter for the requested graph (or comes from that graph's own triple set): a view on one graph never "
              "reports a triple that lives only in another", floor=8)
-    orders = roles.index_orders(mem, "Memory")
-    ti = roles.TriplesInterp(mem, "Memory", orders, True)
-    for b in roles.shapes():
-        ti.run_shape(b)
-    seen = set()
-    for y in ti.yields:
-        k = (y.shape, id(y.node))
-        if k in seen:
-            continue
-        seen.add(k)
-        ctxp = [p for p in y.problems if "context filter" in p or "per-context dump" in p]
-        rep.ob("C02.f-context-filter-on-every-yield", mem, "Memory.triples", "shape %s: yield %s" % (y.shape, norm(y.node.value)[:60]), not ctxp,
-               "context-filtered" if not ctxp else "; ".join(ctxp), node=y.node)
+    # Memory.triples (the public entry) is executed abstractly once per shape, into the private generators it delegates to; the filter is
+    # recognised by what it is - a membership test relating the yielded triple and the requested context through the store's state, or a
+    # predicate method of the class that returns one - not by a name (vlib/h_c02.CtxFilterInterp).  One obligation per (shape, yield):
+    # the floor of 8 is one per shape, and a shape that reaches no yield at all is a lost anchor.
+    ci = H.CtxFilterInterp(mem, "Memory", "triples")
+    for b in H.shapes():
+        if ci.run_shape(b) == 0:
+            raise AnalysisError("Memory.triples: no yield is reached for the pattern shape %s - the abstract execution lost the generator" % ci.shape)
+    for y in ci.results():
+        rep.ob("C02.f-context-filter-on-every-yield", mem, "Memory.triples", "shape %s: yield %s" % (y.shape, norm(getattr(y.node, "value", None) or y.node)[:60]), y.ok,
+               y.why if y.where == "Memory.triples" or y.ok else "in %s: %s" % (y.where, y.why), node=y.node)
+    rep.analysed("%s:Memory.triples" % mem.rel)
 
 
 # truthiness tests on graphs that are deliberate emptiness tests, one reason each
 EXEMPT: dict[tuple[str, str], str] = {}
 
 
+from vlib.core import layer as _layer  # noqa: E402
+
 _run_base = run
 
 
 def run(repo: Repo, rep: Report) -> None:  # noqa: F811
-    _run_base(repo, rep)
+    _layer(rep, _run_base, repo)
     gm = repo.mod("rdflib.graph")
     # ------------------------------------------------------------------ (h)
     rep.rule("C02.h-quads-of-a-named-graph-only",
@@ -259,20 +256,47 @@ def run(repo: Repo, rep: Report) -> None:  # noqa: F811
     rep.rule("C02.i-write-without-graph-goes-to-default-graph",
              "ConjunctiveGraph._spoc, on the write path (default=True), never hands the store context=None for a 4-tuple whose graph is None: Store.add with context None files the "
              "triple under the union context only - it is counted by len() but belongs to no graph, not even the default graph", floor=1)
-    sf = gm.func("ConjunctiveGraph._spoc")
-    four = [n for n in own_nodes(sf) if isinstance(n, ast.If) and "== 4" in norm(n.test)]
-    if not four:
-        raise AnalysisError("_spoc: 4-tuple branch not found")
-    ok = any(isinstance(n, ast.If) and "is None" in norm(n.test) and "default" in norm(n.test) and any(isinstance(a, ast.Assign) and "default_context" in norm(a.value) for a in n.body) for b in four for n in ast.walk(b))
-    rep.ob("C02.i-write-without-graph-goes-to-default-graph", gm, "ConjunctiveGraph._spoc", "4-tuple with graph None on the write path -> default_context", ok,
-           "" if ok else "ds.add((s, p, o, None)) stores the triple with context None: len(ds) == 1 but ds.quads() is empty and the default graph does not contain it", node=four[0])
+    # the resolver is found by its role (the method whose 4-tuple result ConjunctiveGraph.add unpacks and whose last component it hands to
+    # store.add as the context), and executed for None-ness under the scenario of that call: the flags add() passes as True are true, the
+    # argument is a 4-tuple.  Every return then hands back a graph component that is not None - conditional expressions, nested ifs, an
+    # early return are all the same to it (vlib/h_c02.NullScenario); attributes / calls are not None when their static type is not Optional.
+    from vlib import h_c02 as H
+
+    T = repo.typed
+    sf, call, idx = H.quad_resolver(gm, "ConjunctiveGraph", "add")
+    bound = H.CtxFilterInterp.bind_args(call, sf)
+    if not bound:
+        raise AnalysisError("ConjunctiveGraph.add: arguments of the call of %s not understood" % sf.name)
+    quad = next((p_ for p_, a_ in bound.items() if isinstance(a_, ast.Name)), None)
+    flags = {p_ for p_, a_ in bound.items() if isinstance(a_, ast.Constant) and a_.value is True}
+    family = [c_ for c_ in set(T.mro("rdflib.graph.ConjunctiveGraph")) | set(T.subclasses("rdflib.graph.ConjunctiveGraph")) if c_.rpartition(".")[0] == gm.name and gm.has(c_.rpartition(".")[2])]
+
+    def property_returns(attr: str) -> list:
+        out = []
+        for c_ in family:
+            for st_ in gm.cls(c_.rpartition(".")[2]).body:
+                if isinstance(st_, ast.FunctionDef) and st_.name == attr and any(isinstance(d_, ast.Name) and d_.id == "property" for d_ in st_.decorator_list):
+                    rets = [n_.value for n_ in own_nodes(st_) if isinstance(n_, ast.Return)]
+                    if not rets or any(v_ is None for v_ in rets):
+                        return []
+                    out += rets
+        return out
+
+    ns = H.NullScenario(sf, quad, flags, idx, lambda e: T.type_of(gm.name, e), property_returns)
+    if ns.n_returns == 0:
+        raise AnalysisError("%s: no return reached under the write scenario" % sf.name)
+    rep.analysed("%s:ConjunctiveGraph.%s" % (gm.rel, sf.name))
+    ok = not ns.hits
+    rep.ob("C02.i-write-without-graph-goes-to-default-graph", gm, "ConjunctiveGraph." + sf.name, "4-tuple with graph None on the write path -> default_context", ok,
+           "" if ok else "ds.add((s, p, o, None)) stores the triple with context None: len(ds) == 1 but ds.quads() is empty and the default graph does not contain it [%s]" % ns.hits[0][1],
+           node=ns.hits[0][0] if ns.hits else sf)
 
 
 _run_base2 = run
 
 
 def run(repo: Repo, rep: Report) -> None:  # noqa: F811
-    _run_base2(repo, rep)
+    _layer(rep, _run_base2, repo)
     from vlib import argswap
 
     rep.rule("C02.j-no-swapped-arguments-in-graph-and-stores",
@@ -285,7 +309,7 @@ _run_base3 = run
 
 
 def run(repo: Repo, rep: Report) -> None:  # noqa: F811
-    _run_base3(repo, rep)
+    _layer(rep, _run_base3, repo)
     mem = repo.mod("rdflib.plugins.stores.memory")
     gm = repo.mod("rdflib.graph")
     # ------------------------------------------------------------------ (k)
@@ -333,7 +357,7 @@ _run_base4 = run
 
 
 def run(repo: Repo, rep: Report) -> None:  # noqa: F811
-    _run_base4(repo, rep)
+    _layer(rep, _run_base4, repo)
     from vlib import h_c02 as H
 
     T = repo.typed
@@ -505,3 +529,186 @@ def run(repo: Repo, rep: Report) -> None:  # noqa: F811
                        "the branch is decided by the emptiness of %s alone: a graph that exists in the dataset and holds no triples is treated like an unknown one (fallback to another source)" % norm(s_),
                        node=s_)
         rep.analysed("%s:%s" % (mm.rel, q))
+
+
+_run_base5 = run
+
+
+def run(repo: Repo, rep: Report) -> None:  # noqa: F811
+    _layer(rep, _run_base5, repo)
+    import re
+
+    from vlib import h_c02 as H
+
+    T = repo.typed
+    gm = repo.mod("rdflib.graph")
+    CG = "rdflib.graph.ConjunctiveGraph"
+    GRAPH = "rdflib.graph.Graph"
+    ds_classes = []
+    for cls in sorted(T.subclasses(CG)):
+        modname, _, cname = cls.rpartition(".")
+        if modname in repo.modules and repo.mod(modname).has(cname):
+            ds_classes.append((repo.mod(modname), cname))
+    if len(ds_classes) < 2:
+        raise AnalysisError("ConjunctiveGraph and its subclasses not found")
+    rep.extra["explanation"] = rep.extra.get("explanation", "") + (
+        " (p) every element a listing generator of the dataset classes yields depends on every selector parameter; (q) a context given by name is resolved to a graph of "
+        "this store before any self.store call; (r) a graph view the SPARQL engine builds on a dataset's store and fills is also registered; (s) every update evaluator can "
+        "return normally; (t) CREATE / DROP reach the store's add_graph / remove_graph as Dataset.graph() / remove_graph() do.")
+
+    # ------------------------------------------------------------------ (p)  F210
+    # graphs(triple) / contexts(triple) / quads(pattern) / triples(pattern, context) are LISTINGS RESTRICTED BY A SELECTOR.  Every element
+    # such a generator produces must be restricted by every selector parameter: it is drawn from an enumeration that received the
+    # parameter (or a value plainly computed from it), or it is produced under a test of the parameter.  A test on the elements listed
+    # so far ("was the default graph among them?") is not a test of the selector.
+    rep.rule("C02.p-every-listed-element-answers-the-selector",
+             "in every generator method of ConjunctiveGraph/Dataset (and subclasses) each yielded element depends on each parameter of the method: it comes out of an enumeration "
+             "that was handed the parameter, is computed from it, or is yielded under a test of it.  An element appended unconditionally (or under a test of what was listed "
+             "before) is reported for EVERY selector: ds.graphs((s, p, o)) lists the default graph although it does not hold (s, p, o)", floor=21)
+    for m, cname in ds_classes:
+        for mname, f in m.methods(cname).items():
+            ys = [n for n in own_nodes(f) if isinstance(n, (ast.Yield, ast.YieldFrom))]
+            params = [a.arg for a in (list(f.args.posonlyargs) + list(f.args.args))[1:] + list(f.args.kwonlyargs)]
+            if not ys or not params:
+                continue
+            q = "%s.%s" % (cname, mname)
+            rep.analysed("%s:%s" % (m.rel, q))
+            for p_ in params:
+                names = H.plainly_derived(f, {p_})
+                for y in ys:
+                    why = H.yield_dependence(m, f, y, names)
+                    rep.ob("C02.p-every-listed-element-answers-the-selector", m, q, "%s [selector %s]" % (norm(y)[:70], p_), bool(why),
+                           why or "this element is produced whatever `%s` is: neither computed from it, nor drawn from an enumeration that received it, nor under a test of it - "
+                           "the listing restricted by %s contains an element that does not answer the restriction" % (p_, p_), node=y)
+
+    # ------------------------------------------------------------------ (q)  F211
+    # A context may be given by NAME to every method of the dataset classes (get_context/_graph/_graph_view turn it into a graph of this store).
+    # The store keys contexts by graph objects: a bare identifier handed to self.store.<anything> names a context nobody ever wrote to.
+    # Scenario execution with "the parameter is a URIRef": tests on it are folded (is None -> no, isinstance(.., Graph) -> no).
+    rep.rule("C02.q-a-graph-name-never-reaches-the-store-unresolved",
+             "no method of ConjunctiveGraph/Dataset hands a `graph or graph name` parameter to self.store.<method>(...) on a path where it can still be a bare identifier (URIRef): it is "
+             "first resolved to a Graph of this store (get_context / _graph / _graph_view).  cg.remove_context(URIRef('g')) otherwise asks the store to clear a context keyed by the "
+             "bare name - not the graph <g> - and silently removes nothing", floor=11)
+    uri_mro = {c.rsplit(".", 1)[-1] for c in T.mro("rdflib.term.URIRef")}
+    if "URIRef" not in uri_mro or len(uri_mro) < 3:
+        raise AnalysisError("rdflib.term.URIRef not found among the typed classes")
+    graph_names = {c.rsplit(".", 1)[-1] for c in T.subclasses(GRAPH)}
+
+    def name_verdict(name: str):
+        if name in graph_names:
+            return False
+        if name in uri_mro or name == "str":
+            return True
+        return None
+
+    for m, cname in ds_classes:
+        for mname, f in m.methods(cname).items():
+            recv = H.receiver_name(f)
+            if recv is None:
+                continue
+            for p_ in H.graph_or_name_params(f, ("Graph", "_ContextType", "_ContextIdentifierType")):
+                sc = H.SinkScenario(f, p_, recv, name_verdict, H.is_store_call_of(recv))
+                q = "%s.%s" % (cname, mname)
+                rep.analysed("%s:%s" % (m.rel, q))
+                if not sc.sink_hits:
+                    rep.ob("C02.q-a-graph-name-never-reaches-the-store-unresolved", m, q, "%s(%s = a graph name)" % (mname, p_), True, "resolved before any store call", node=f)
+                for h in sc.sink_hits:
+                    rep.ob("C02.q-a-graph-name-never-reaches-the-store-unresolved", m, q, h, False,
+                           "with %s = URIRef('g') this call hands the bare name to the store as the context: the store's contexts are graph objects (keyed by class and identifier of "
+                           "the graph), so the call addresses a context nobody wrote to - nothing is removed / found / added to <g>" % p_, node=h)
+
+    # ------------------------------------------------------------------ (r)  F284
+    # Graph(store=ds.store, identifier=n) is only a VIEW of the store: writing zero triples through it does not make <n> a graph of ds.
+    # Where the SPARQL engine builds such a view on a dataset's store and fills it, it also registers it (add_graph) - or gets it from Dataset.graph().
+    rep.rule("C02.r-a-view-filled-on-a-dataset-store-is-also-registered",
+             "in the SPARQL engine a Graph(store=<dataset>.store, identifier=<n>) that is written through (+=, add, addN, parse) is also registered with that store (add_graph(view) "
+             "in the same function, or the view comes from <dataset>.graph(n)): copying the zero triples of a graph that exists and is empty creates nothing, so after "
+             "FROM NAMED <g> the query dataset would lack <g> - `SELECT ?g FROM NAMED <g> { GRAPH ?g {} }` answers nothing where the same query without the clause answers <g>", floor=1)
+    n_views = 0
+    for name in ("rdflib.plugins.sparql.sparql", "rdflib.plugins.sparql.evaluate", "rdflib.plugins.sparql.update", "rdflib.plugins.sparql.processor", "rdflib.plugins.sparql.evalutils"):
+        mm = repo.mod(name)
+        for q, f in mm.functions():
+            if "." in q and isinstance(mm.defs.get(q.rsplit(".", 1)[0]), ast.FunctionDef):
+                continue  # nested defs are walked with their owner
+            rep.analysed("%s:%s" % (mm.rel, q))
+            for a in own_nodes(f, include_nested=True):
+                if not (isinstance(a, ast.Assign) and len(a.targets) == 1 and isinstance(a.targets[0], ast.Name) and isinstance(a.value, ast.Call)):
+                    continue
+                c = a.value
+                tf = T.type_of(mm.name, c)
+                if not (tf and tf.items and all(GRAPH in T.mro(x) for x in tf.items) and not any(CG in T.mro(x) for x in tf.items)):
+                    continue
+                store = H.call_arg(c, 0, "store")
+                ident = H.call_arg(c, 1, "identifier")
+                fref = T.ref(mm.name, c.func)
+                is_ctor = (fref in T.classes) if fref else (isinstance(c.func, ast.Name) and c.func.id in graph_names)
+                if not (is_ctor and store is not None and ident is not None and isinstance(store, ast.Attribute) and store.attr == "store"):
+                    continue
+                st = T.type_of(mm.name, store.value)
+                if not (st and st.items and all(CG in T.mro(x) for x in st.items)):
+                    continue
+                view = H.aliases_of(f, lambda e, c=c: e is c)
+                writes = H.writes_through(f, view)
+                if not writes:
+                    continue
+                n_views += 1
+                reg = [x for x in own_nodes(f, include_nested=True) if isinstance(x, ast.Call) and isinstance(x.func, ast.Attribute) and (
+                    (x.func.attr == "add_graph" and any(isinstance(y, ast.Name) and y.id in view for y in x.args))
+                    or (x.func.attr in ("graph", "add_graph") and x.args and norm(x.args[0]) == norm(ident)))]
+                rep.ob("C02.r-a-view-filled-on-a-dataset-store-is-also-registered", mm, q, "%s ... %s" % (norm(a)[:80], norm(writes[0])[:50]), bool(reg),
+                       ("registered: " + norm(reg[0])[:70]) if reg else
+                       "the view on %s is filled but never registered: when nothing is written (the source graph exists and is empty) the dataset has no graph %s" % (norm(store), norm(ident)), node=a)
+    if n_views == 0:
+        # the engine may get its named graphs from Dataset.graph(): then creation and registration are one call - count those
+        sp_ = repo.mod("rdflib.plugins.sparql.sparql")
+        f = sp_.func("QueryContext.__init__")
+        made = [x for x in own_nodes(f, include_nested=True) if isinstance(x, ast.Call) and isinstance(x.func, ast.Attribute) and x.func.attr in ("graph", "add_graph")]
+        if not made:
+            raise AnalysisError("QueryContext.__init__: neither a graph view on the query dataset's store nor a Dataset.graph() call found: rule C02.r must be re-derived")
+        rep.ob("C02.r-a-view-filled-on-a-dataset-store-is-also-registered", sp_, "QueryContext.__init__", made[0], True, "named graphs of the query dataset are created through the registering API", node=made[0])
+
+    # ------------------------------------------------------------------ (s, t)  F285
+    up = repo.mod("rdflib.plugins.sparql.update")
+    top = {q: f for q, f in up.functions() if "." not in q}
+    if "evalUpdate" not in top:
+        raise AnalysisError("evalUpdate vanished")
+    arms = H.name_dispatch(top["evalUpdate"], lambda n: n in top)
+    if len(arms) < 11:
+        raise AnalysisError("evalUpdate: expected 11 dispatch arms, found %s" % sorted(arms))
+    rep.rule("C02.s-every-update-operation-can-succeed",
+             "every evaluator that evalUpdate dispatches an operation to has a path from its entry to a normal return: an evaluator whose every path ends in `raise` makes the operation "
+             "fail for every request, and its SILENT form do nothing - CREATE GRAPH <g> raised 'Create not implemented!' whether or not <g> existed", floor=11)
+    for op, hn in sorted(arms.items()):
+        f = top[hn]
+        g = CFG(f)
+        ok = g.exit in g.reach(g.entry)
+        rep.analysed("%s:%s" % (up.rel, hn))
+        rep.ob("C02.s-every-update-operation-can-succeed", up, hn, "operation %s: entry ->* normal return" % op, ok,
+               "" if ok else "every path through %s ends in a raise: %s never succeeds (and %s SILENT changes nothing)" % (hn, op.upper(), op.upper()), node=f)
+
+    # sibling agreement with the Dataset API: what Dataset.graph(n) / Dataset.remove_graph(n) do to the store's registry of graphs, CREATE / DROP do too
+    rep.rule("C02.t-create-and-drop-change-the-registry-of-graphs",
+             "the evaluators of CREATE and DROP reach (directly or through a helper of the module) the store call by which Dataset.graph() / Dataset.remove_graph() register / forget a "
+             "graph (store.add_graph / store.remove_graph), or that Dataset method itself: an empty graph exists only in the registry, so CREATE GRAPH <g> that registers nothing "
+             "leaves ds.graphs() and GRAPH ?g {} without <g>", floor=2)
+    st_mod = repo.mod("rdflib.store")
+    for op, api in (("Create", "graph"), ("Drop", "remove_graph")):
+        if op not in arms:
+            raise AnalysisError("evalUpdate: no arm for %s" % op)
+        af = gm.func("Dataset." + api)
+        arecv = H.receiver_name(af)
+        ag = CFG(af)
+        # the registry call that characterises the API method: the store.<..graph..>() call it makes on EVERY path
+        scalls = sorted({c.func.attr for c in own_nodes(af) if isinstance(c, ast.Call) and arecv and H.is_store_call_of(arecv)(c) and st_mod.has("Store." + c.func.attr)
+                         and "graph" in c.func.attr and ag.must_pass_before(ag.exit, {ag.node_of(c, gm)})})
+        if len(scalls) != 1:
+            raise AnalysisError("Dataset.%s: expected one unconditional self.store.<..graph..>() call, found %s" % (api, scalls))
+        want = {scalls[0], api}
+        f = top[arms[op]]
+        why = None
+        for s_ in f.body:
+            why = H.consults_registry(up, s_, f, want)
+            if why:
+                break
+        rep.ob("C02.t-create-and-drop-change-the-registry-of-graphs", up, arms[op], "%s reaches .%s()" % (op.upper(), "() / .".join(sorted(want))), bool(why),
+               why or "%s never calls %s: the registry of graphs of a graph-aware store is not changed by %s (Dataset.%s() does call store.%s)" % (arms[op], " / ".join(sorted(want)), op.upper(), api, scalls[0]), node=f)
